@@ -16,7 +16,7 @@ LEVEL = "fault_enumeration"
 FLAVOURS = ["rel"]
 TARGETS = ["enginesim", "killshim"]
 RULE = ("Hypothesis generates an engine program with artifact-bearing rules and a history with the database attached; "
-        "one build is the victim. The builds before it run in process A; the victim runs in process B under "
+        "one build is the victim. The builds before it run in process A (none, and no database file, when the victim is the first build: it then also creates the file); the victim runs in process B under "
         "killshim.so (LD_PRELOAD), which counts every write/pwrite/fsync/fdatasync/ftruncate/unlink/rename/"
         "open(O_CREAT) that touches the database file or its journal: T calls. The check then ENUMERATES N = 1..T "
         "(stride-sampled above the cap, counted), restoring the pre-victim database and delivering SIGKILL before "
@@ -149,7 +149,12 @@ def run_case(case, ctx, verbose=False):
         # ---------------- process A: everything before the victim build
         partA = dict(case)
         partA["ops"] = case["ops"][:vi]
-        rcA, rawA, errA = run_script(em.script_for(partA, db, dump=True, flush=True))
+        if not any(op["op"] == "build" for op in partA["ops"]):
+            # the victim is the first build of the history: process A must not even attach the database, so that
+            # the victim is also the process that CREATES the file (schema creation is part of what can be killed)
+            rcA, rawA, errA = 0, "", ""
+        else:
+            rcA, rawA, errA = run_script(em.script_for(partA, db, dump=True, flush=True))
         if rcA != 0:
             return Outcome("process A (before the victim) failed rc=%s %s" % (rcA, errA[-300:]))
         traceA = em.parse_trace(rawA)
